@@ -9,19 +9,21 @@ from harness import exec_props as X
 BIAS = {"profiles": ["failing", "failing", "failing", "mixed", "timeout", "faulty"],
         "sub_ok_p": 0.75, "cancel_p": 0.05, "attempts": [1, 1, 2, 3], "max_polls": 14, "nmax": 9,
         "fair_after": [None, 3, 5, 8]}
-# exhaustive tiny scope: every failure kind x shape pair: for every tiny graph (single, chain,
-# chain with a local child, two independent steps, funnel with two parents, fan-out) every queried
-# job gets, at every poll, absent / RUNNING / FINISHED / FAILED / TIMEDOUT / CANCELLED / UNKNOWN,
-# every submission may fail, a cancel request may arrive at any poll
-TINY = {"depth_quick": 3, "depth_thorough": 4, "graphs_quick": 6,
+# exhaustive tiny scope = every failure kind x shape pair: for every tiny graph (single step, chain,
+# chain with a local child, two independent steps, funnel with two parents one child, fan-out)
+# every queried job gets, at every poll up to the depth, absent / RUNNING / FINISHED / FAILED /
+# TIMEDOUT / CANCELLED / UNKNOWN (quick: 1254 histories, complete).  The thorough tier adds a
+# cancel request at any poll and a failing outcome for any submission (exhausted attempts).
+TINY = {"depth_quick": 3, "depth_thorough": 3, "graphs_quick": 6,
         "cfgs": [{"throttle": 0, "attempts": 1, "dry": False}, {"throttle": 1, "attempts": 2, "dry": False}],
-        "enum": {"q": False, "cancel": True, "subs": True,
+        "enum": {"q": False, "cancel": False, "subs": False,
                  "kinds": ["absent", "RUNNING", "FINISHED", "FAILED", "TIMEDOUT", "CANCELLED", "UNKNOWN"]},
-        "limit_quick": 2400, "limit_thorough": 60000}
+        "limit_quick": 4000, "limit_thorough": 60000}
+TINY_THOROUGH = dict(TINY, enum=dict(TINY["enum"], cancel=True, subs=True))
 
 
 def run(ck):
-    return X.run_exec(ck, 2, BIAS, tiny=TINY)
+    return X.run_exec(ck, 2, BIAS, tiny=TINY if ck.tier == "quick" else TINY_THOROUGH)
 
 
 def replay(ck, path):
